@@ -1078,3 +1078,88 @@ def strip_imports(src):
   except Exception:  # pylint: disable=broad-except
     return None
   return out
+
+
+# ---------------------------------------------------------------------------------------
+# Boundary values on CONCRETE abstract values.  pytype tracks the contents of displays and constants and special-cases
+# operations on them (constant indices into tracked lists/tuples/strings, unpacking of known lengths, % formatting,
+# folding); such code indexes real Python containers inside the analyser, so an off-by-one at a boundary
+# (index == len, -len-1, empty display, zero divisor) is an internal IndexError/ZeroDivisionError rather than a wrong
+# type.  The random grammar reaches these values with negligible probability, so they are enumerated.
+
+def edge_statements():
+  """Deterministic list of single statements (each valid Python on its own)."""
+  out = []
+  displays = {
+      "list": ["[]", "[1]", "[1, 'a']", "[1, 'a', 3.0]"],
+      "tuple": ["()", "(1,)", "(1, 'a')", "(1, 'a', 3.0)"],
+      "str": ["''", "'a'", "'ab'", "'abc'"],
+      "bytes": ["b''", "b'a'", "b'ab'", "b'abc'"],
+      "dict": ["{}", "{0: 1}", "{0: 1, 1: 'a'}", "{'a': 1, 'b': 2, 'c': 3}"],
+      "range": ["range(0)", "range(1)", "range(2)", "range(3)"],
+  }
+  for kind, ds in displays.items():
+    for n, d in enumerate(ds):
+      idx = sorted({-n - 2, -n - 1, -n, -1, 0, n - 1, n, n + 1})
+      for i in idx:
+        out.append(f"v = {d}[{i}]")
+        out.append(f"w = {d}; v = w[{i}]")
+        if kind in ("list", "dict"):
+          out.append(f"w = {d}; w[{i}] = 0")
+          out.append(f"w = {d}; del w[{i}]")
+        if kind == "list":
+          out.append(f"w = {d}; v = w.pop({i})")
+          out.append(f"w = {d}; w.insert({i}, 0)")
+        if kind != "dict":
+          out.append(f"v = {d}[{i}:]")
+          out.append(f"v = {d}[:{i}]")
+          out.append(f"v = {d}[::{i}]" if i else f"v = {d}[0:0]")
+          out.append(f"v = {d} * {i}")
+      # unpacking against a known length
+      for m in (max(n - 1, 0), n, n + 1):
+        if m:
+          tg = ", ".join(f"a{j}" for j in range(m)) + ("," if m == 1 else "")
+          out.append(f"{tg} = {d}")
+          out.append(f"*s, {tg} = {d}")
+          out.append(", ".join(f"a{j}" for j in range(m)) + f", *s = {d}")
+      out.append(f"for q in {d}: pass")
+      out.append(f"v = [q for q in {d}][{n}:{n}]")
+      out.append(f"v = max({d})" if kind != "dict" else f"v = {d}.popitem()")
+  for s in ["'%s' % ()", "'%s %s' % (1,)", "'%s' % (1, 2)", "'%d' % 'a'", "'%(k)s' % {}", "'%' % ()", "'%s %' % 1",
+            "'{} {}'.format(1)", "'{0} {2}'.format(1, 2)", "'{k}'.format()", "'{'.format()", "'}'.format()",
+            "f'{1!x}'" if False else "'{!x}'.format(1)", "'{:q}'.format(1)",
+            "int('x')", "int('1', 99)", "float('x')", "chr(-1)", "chr(0x110000)", "bytes([256])", "bytes(-1)",
+            "1 // 0", "1 % 0", "1 / 0", "divmod(1, 0)", "1.0 // 0.0", "0 ** -1", "2 ** -1", "2 ** 100000", "1 << -1",
+            "1 << 100000", "1 >> -1", "'a' * -1", "[1] * -1", "(1,) * -1", "'a' * (2 ** 62)", "-(-2 ** 63)", "~(2 ** 64)",
+            "round(1.5, -400)", "1e308 * 10", "-1 ** 0.5", "(-1) ** 0.5", "complex(1, 2) // 1" if False else "abs(-2 ** 63)",
+            "[1, 2, 3][True]", "[1, 2, 3][False]", "(1, 2)[True]", "'ab'[True]", "[1, 2, 3][-True]",
+            "[1, 2][1.0]", "[1, 2]['a']", "[1, 2][None]", "{}[[]]", "{[]: 1}", "{{}}" if False else "{(): 1}[()]",
+            "x = (); y = x[0]", "x = []; y = x[0]; x.append(1); z = x[1]", "x = [1]; x.clear(); y = x[0]",
+            "x = [1, 2]; x.extend([3]); y = x[2]; z = x[3]", "x = (1, 2) + (3,); y = x[3]", "x = [0] * 3; y = x[3]",
+            "x = {'a': 1}; y = x['b']", "x = {'a': 1}; x.update(b=2); y = x['c']", "x = {}; y = x.pop('a')",
+            "x = set(); y = x.pop()", "x = [1, 2, 3]; a, b = x", "x = (1, 2, 3); a, b = x", "a, b = 'abc'",
+            "a, (b, c) = 1, (2,)", "(a, b), c = (1,), 2", "a, *b, c = (1,)", "[a, b] = [1]",
+            "x = slice(1, 2, 0); y = [1, 2][x]", "y = [1, 2][slice(None, None, 0)]", "y = 'ab'[::0]",
+            "x = range(3); y = x[3]", "x = range(0); y = x[0]; z = x[-1]", "y = range(1, 1)[0]",
+            "x = 'abc'; y = x[3]; z = x[-4]", "x = b'abc'; y = x[3]", "y = ''[0]", "y = b''[0]", "y = ()[0]", "y = [][0]",
+            "y = [[]][0][0]", "y = [()][0][0]", "y = ([],)[0][0]", "y = {'a': []}['a'][0]",
+            "x = [1, 'a', 3.0]; y = x[3]", "x = [1, 'a', 3.0]; y = x[-4]", "x = [1, 'a', 3.0]; y = x[3:4]; z = y[0]"]:
+    out.append(s)
+  seen = set()
+  res = []
+  for s in out:
+    if s not in seen:
+      seen.add(s)
+      res.append(s)
+  return res
+
+
+def edge_programs(per_program=20):
+  """Bundles the edge statements (each on its own line; a module and a function-body variant) -> [(label, source)]."""
+  st = edge_statements()
+  progs = []
+  for k in range(0, len(st), per_program):
+    chunk = st[k:k + per_program]
+    progs.append((f"edge{k // per_program}:module", "\n".join(chunk) + "\n"))
+    progs.append((f"edge{k // per_program}:function", "def f(p):\n" + "\n".join("  " + c for c in chunk) + "\n  return p\nf(0)\n"))
+  return progs
